@@ -1,5 +1,5 @@
 # replay of a bounded stand-in violation (C16): re-run native/c16_states.py
 import sys
-print('bosonic n=3 pure=False gaussian: reduced_dm([2]) has shape (8, 8, 8, 8, 8, 8), expected two indices per mode')
+print('n=2 pure=True cat-complex: quad_expectation(1,0.8) = [0.6112, 2.20028] on bosonic, [-0.03659, 2.88812] on fock')
 print('REPLAY-VIOLATION')
 sys.exit(1)
